@@ -13,6 +13,6 @@ CONSTANTS
   InitClkEpochs = {0, 1}
   MaxLen = 12
   RawMags <- RawMagsOne
-  StepUsesDoubleInv = TRUE
-  DurationWraps = TRUE
+  StepUsesDoubleInv = FALSE
+  DurationWraps = FALSE
 INVARIANTS Emit
